@@ -16,6 +16,8 @@ extern int verif_exc;
 /* after a call to a function that may throw: C++ propagation in a function without try */
 #define VERIF_PROPAGATE do { if (verif_exc) return VERIF_DUMMY; } while (0)
 
+#define VERIF_PROPAGATE_TO(label) do { if (verif_exc) goto label; } while (0)
+
 /* ---- repo assertions and aborts are obligations (DESIGN.md 3.6) */
 #undef assert
 #define assert(e) __CPROVER_assert((e), "repo assert: " #e)
